@@ -36,7 +36,7 @@ pub fn cache_world(rng: &mut Rng, thorough: bool, adversarial: bool) -> (Spec, C
     let replicas = rng.range(0, 1) as usize;
     let mut cfg = single_pool("transaction", pool_size, replicas);
     cfg.set("connect_timeout", 60000);
-    cfg.pools[0].cache_size = *rng.pick(&[1usize, 2, 2, 8]);
+    cfg.pools[0].cache_size = *rng.pick(&[1usize, 2, 2, 3, 8]);
     if rng.chance(0.3) {
         cfg.set("healthcheck_delay", 0);
     }
@@ -48,6 +48,8 @@ pub fn cache_world(rng: &mut Rng, thorough: bool, adversarial: bool) -> (Spec, C
     }
     let nclients = rng.range(2, if thorough { 4 } else { 3 }) as u32;
     let share_text = rng.chance(0.35) || adversarial;
+    let two_statement_batches = rng.chance(0.5);
+    let sql_prepare = rng.chance(0.3);
     let shared_texts = ["shared-alpha", "shared-beta"];
     let mut clients = Vec::new();
     for i in 0..nclients {
@@ -120,6 +122,24 @@ pub fn cache_world(rng: &mut Rng, thorough: bool, adversarial: bool) -> (Spec, C
                     if rng.chance(0.3) {
                         msgs.push(FrontMsg::D { kind: "P".into(), name: "".into() });
                     }
+                    if two_statement_batches && rng.chance(0.4) {
+                        // a second statement in the same batch: another one prepared earlier, or
+                        // one prepared right here (making room for it on the server connection
+                        // must not cost the batch its first statement)
+                        let others: Vec<(String, usize)> = names.live.iter().filter(|(n, _)| *n != name).cloned().collect();
+                        let free: Vec<&str> = name_pool.iter().cloned().filter(|n| !names.live.iter().any(|(l, _)| l == n)).collect();
+                        if !others.is_empty() && (free.is_empty() || rng.chance(0.5)) {
+                            let (n2, np2) = rng.pick(&others).clone();
+                            msgs.extend(bind_exec(&mut p, &n2, np2, 0));
+                        } else if !free.is_empty() {
+                            let n2 = rng.pick(&free).to_string();
+                            let np2 = rng.range(1, 2) as usize;
+                            let sql = stmt_sql(&mut p, None, np2, "");
+                            msgs.push(FrontMsg::P { name: n2.clone(), sql, types: vec![] });
+                            msgs.extend(bind_exec(&mut p, &n2, np2, 0));
+                            names.live.push((n2, np2));
+                        }
+                    }
                     msgs.push(FrontMsg::S);
                     p.send(msgs);
                 }
@@ -172,7 +192,13 @@ pub fn cache_world(rng: &mut Rng, thorough: bool, adversarial: bool) -> (Spec, C
                 }
                 _ => {
                     // unnamed statement or a simple query in between
-                    if rng.chance(0.5) {
+                    if sql_prepare && rng.chance(0.4) {
+                        // PREPARE through SQL: the pooler wipes the server connection's statements
+                        // when it takes the connection back; everybody's cached statements must
+                        // be put back before their next use
+                        let t = p.tag();
+                        p.simple(format!("PREPARE plan_{}_{} AS SELECT '{}'", id, p.t, t));
+                    } else if rng.chance(0.5) {
                         let nr = rng.range(0, 3);
                         let m = super::base::ext_batch(&mut p, rng, "", "", nr, 0, 0, true, false);
                         p.send(m);
@@ -194,6 +220,8 @@ pub fn cache_world(rng: &mut Rng, thorough: bool, adversarial: bool) -> (Spec, C
     spec.params = params_from(&cfg);
     spec.params.insert("cache_on".into(), serde_json::json!(true));
     spec.params.insert("cache_size".into(), serde_json::json!(cfg.pools[0].cache_size));
+    spec.params.insert("two_statement_batches".into(), serde_json::json!(two_statement_batches));
+    spec.params.insert("sql_prepare".into(), serde_json::json!(sql_prepare));
     (spec, cfg)
 }
 
